@@ -53,13 +53,15 @@ static qb_map_iter_t *its[MAXIT + 1];
 static int park[MAXIT + 1];   /* key the iterator last returned (0 none) */
 static int ended[MAXIT + 1];
 static int ghost[NKEYS + 1];  /* key removed while an iterator was parked on it */
+static char *curkey[NKEYS + 1]; /* the key buffer the most recent put of that key handed to the map */
+static int ghosty_any(void) { for (int k = 1; k <= NKEYS; k++) if (ghost[k]) return 1; return 0; }
 
 static void fresh(void)
 {
 	if (!strcmp(impl, "hash")) m = qb_hashtable_create(8);
 	else if (!strcmp(impl, "skip")) m = qb_skiplist_create();
 	else m = qb_trie_create();
-	memset(its, 0, sizeof(its)); memset(park, 0, sizeof(park)); memset(ended, 0, sizeof(ended)); memset(ghost, 0, sizeof(ghost));
+	memset(its, 0, sizeof(its)); memset(park, 0, sizeof(park)); memset(ended, 0, sizeof(ended)); memset(ghost, 0, sizeof(ghost)); memset(curkey, 0, sizeof(curkey));
 }
 static int any_ghost(void) { for (int k = 1; k <= NKEYS; k++) if (ghost[k]) return 1; return 0; }
 static void reghost(void)
@@ -116,7 +118,16 @@ int main(int argc, char **argv)
 				for (int i = 1; i <= MAXIT; i++) if (its[i] && park[i] && keys[park[i]][0] == keys[a1][0]) sk = 1;
 				if (sk) continue;
 			}
-			qb_map_put(m, keys[a1], (void *)(intptr_t)a2);
+			{
+				/* keys belong to the caller: every put hands the map its own copy, and the copy an earlier put of the
+				 * same key handed over is the caller's again once that put has been replaced ("it gets replaced by the
+				 * new key", qbmap.h) -- it is overwritten here, as a caller that recycles its buffers would */
+				int was = qb_map_get(m, keys[a1]) != NULL;
+				char *nk = strdup(keys[a1]);
+				qb_map_put(m, nk, (void *)(intptr_t)a2);
+				if (was && curkey[a1] && !ghosty_any()) memset(curkey[a1], 0x01, strlen(curkey[a1]));
+				curkey[a1] = nk;
+			}
 			vt_ev(op); vt_i(a1); vt_i(a2); vt_res(); end_ev();
 		} else if (!strcmp(op, "Get")) {
 			if (g && ghost[a1]) continue;
